@@ -151,6 +151,17 @@ func c05Parse(c *mon.Ctx, family, text string, oi int) geojson.Object {
 		} else {
 			c.Count("parse_rejected")
 		}
+		if (len(text)+oi)%3 == 0 {
+			// the same text again under the same options, straight away: Parse must return, and with the same outcome
+			// (added after seeded change C05-p, a last-document cache that leaked its lock when a rejected text came twice)
+			o2, err2 := geojson.Parse(text, opts)
+			c.Count("parse_repeated")
+			if (o2 == nil) == (err2 == nil) {
+				c.Violation("object-xor-error", fmt.Sprintf("second Parse of the same text returned obj=%v err=%v", o2 != nil, err2), nil)
+			} else if (o2 == nil) != (o == nil) {
+				c.Violation("parse-not-repeatable", fmt.Sprintf("the same text under the same options was accepted=%v first and accepted=%v the second time", o != nil, o2 != nil), nil)
+			}
+		}
 	})
 	return obj
 }
